@@ -61,7 +61,7 @@ const (
 	gossipInterval = 50 * time.Millisecond
 	gracePeriod    = 6 * time.Second
 	slowInflight   = 3 * time.Second         // the in-flight request of `shutdown-inflight` (below the grace period)
-	drainBand      = 2200 * time.Millisecond // traffic must be withdrawn this soon after Shutdown starts (while that request is still in flight)
+	drainBand      = 2200 * time.Millisecond // the leaving node's upstream server must be shut down this soon after Shutdown starts (the request is still in flight)
 	settleBound    = 20 * time.Second        // routing information settles / listeners reconnect (generous: the box may be loaded)
 	pollEvery      = 10 * time.Millisecond
 	maxNotified    = 4 // pkg/gossip Leave: `notified > 3`
@@ -199,7 +199,8 @@ type nodeEngine struct {
 	// a `/hold` request reached a listener's handler
 	holdStarted chan struct{}
 	// decision-table rig
-	rig *rig
+	rig    *rig
+	cdrSeq int
 	// proc tier
 	procDir string
 }
@@ -533,7 +534,10 @@ func (e *nodeEngine) step(ws []string, o *Out) string {
 		}
 		return e.decide(ws[1] == "1", ws[2], ws[3], o)
 	case "close-during-reconnect":
-		return e.closeDuringReconnect(o)
+		if len(ws) != 3 || (ws[1] != "close" && ws[1] != "shutdown") || (ws[2] != "during" && ws[2] != "after") {
+			return "bad-op"
+		}
+		return e.closeDuringReconnect(ws[1], ws[2], o)
 	case "proc":
 		return e.proc(ws[1:], o)
 	}
@@ -624,12 +628,13 @@ func (e *nodeEngine) step(ws []string, o *Out) string {
 		}
 		n := e.nodes[i]
 		var holdRes chan int
+		remote := false
 		if drain {
 			// a slow request (slowInflight, below the grace period) in flight on node i's proxy
 			// when Shutdown starts: preferably for an endpoint served only by ANOTHER node, so
 			// that it keeps the proxy of node i draining for its whole duration on the tree as it
 			// is (node i closes its own upstreams first, which would cut a local one short)
-			ep, remote := "", false
+			ep := ""
 			var eps []string
 			for x := range e.want() {
 				eps = append(eps, x)
@@ -740,13 +745,35 @@ func (e *nodeEngine) step(ws []string, o *Out) string {
 			// while the node may still be draining its proxy: the traffic has to be withdrawn
 			// from it at once, not when the slowest in-flight request is finished
 			n.alive = false // `survivors`, `total`, `requests` now speak about the others
+			// (A) on the node itself (no gossip involved, robust on a loaded box): its upstream
+			//     server is shut down and its handlers have deregistered, within drainBand;
+			// (B) at the survivors: the node is no longer an active row with endpoints, its
+			//     listeners are registered on survivors, requests entering at every survivor
+			//     succeed - while the in-flight request is still in flight (when another node
+			//     serves it, it keeps the proxy draining; the window scales with the load of
+			//     the box), and in any case not later than the settle bound.
+			ups := server.VUpstreamServer(n.srv)
 			detail := ""
-			withdrawn := false
-			for time.Since(t0) < drainBand {
+			withdrawn, holdReturned := false, false
+			holdCode := -1
+			for {
+				if !holdReturned {
+					select {
+					case holdCode = <-holdRes:
+						holdReturned = true
+					default:
+					}
+				}
+				okA := upstream.VSessionCancelled(ups) && len(n.srv.ClusterState().LocalNode().Endpoints) == 0
 				detail = ""
-				for _, s := range e.survivors() {
-					if row, ok := s.srv.ClusterState().Node(n.id); ok && row.Status == cluster.NodeStatusActive && len(row.Endpoints) > 0 {
-						detail = s.id + " still has " + n.id + " active with endpoints " + ShowCounts(row.Endpoints)
+				if !okA {
+					detail = fmt.Sprintf("%s has not shut its upstream server down (cancelled=%v, own endpoints %s)", n.id, upstream.VSessionCancelled(ups), ShowCounts(n.srv.ClusterState().LocalNode().Endpoints))
+				}
+				if detail == "" {
+					for _, s := range e.survivors() {
+						if row, ok := s.srv.ClusterState().Node(n.id); ok && row.Status == cluster.NodeStatusActive && len(row.Endpoints) > 0 {
+							detail = s.id + " still has " + n.id + " active with endpoints " + ShowCounts(row.Endpoints)
+						}
 					}
 				}
 				if detail == "" && ShowCounts(e.total()) != ShowCounts(e.want()) {
@@ -761,7 +788,20 @@ func (e *nodeEngine) step(ws []string, o *Out) string {
 					withdrawn = true
 					break
 				}
+				el := time.Since(t0)
+				if el > drainBand && !okA {
+					break
+				}
+				if el > drainBand && remote && holdReturned {
+					break // the drain is over and the traffic was not withdrawn during it
+				}
+				if el > settleBound {
+					break
+				}
 				time.Sleep(pollEvery)
+			}
+			if holdReturned {
+				holdRes <- holdCode // for the bookkeeping below
 			}
 			o.Add("drain-withdrawn-ms", int(time.Since(t0).Milliseconds()))
 			if withdrawn {
@@ -1158,22 +1198,32 @@ func (l *hookLogger) Warn(string, ...zap.Field)  {}
 func (l *hookLogger) Error(string, ...zap.Field) {}
 func (l *hookLogger) Sync() error                { return nil }
 
-// closeDuringReconnect drives the schedule: the server drops the connection; Accept reconnects;
-// between the successful dial and the installation of the new session the application calls
-// Listener.Close(); the reconnect then completes.  The property (local Close => ErrClosed) asks
-// Accept to return ErrClosed.  (Not generated and not in the corpus: witness of an observation,
-// see replays/C18-close-during-reconnect.ops.)
-func (e *nodeEngine) closeDuringReconnect(o *Out) string {
+// closeDuringReconnect drives the schedule of finding F11: the server drops the connection;
+// Accept reconnects; the application calls Listener.Close() (go-away) or Listener.Shutdown()
+//
+//	during: between the successful dial and the installation of the new session (the reconnect
+//	        is parked in the client's own "connected" log line), or
+//	after:  once the reconnect has completed and Accept blocks on the new session.
+//
+// The property (local Close/Shutdown => ErrClosed) asks Accept to return ErrClosed in every
+// variant; `during` additionally needs the NEW session to be closed (nobody told it about the
+// close), i.e. the server deregisters the upstream.  reg = still registered at the server.
+func (e *nodeEngine) closeDuringReconnect(local, when string, o *Out) string {
 	if e.rig == nil {
 		e.rig = newRig()
 	}
 	r := e.rig
+	e.cdrSeq++
+	ep := fmt.Sprintf("cdr%d", e.cdrSeq)
 	hl := &hookLogger{reached: make(chan struct{}), release: make(chan struct{})}
+	if when == "after" {
+		close(hl.release) // nothing is parked
+	}
 	u := client.Upstream{URL: &url.URL{Scheme: "http", Host: r.rl.Addr().String()}, Logger: hl,
 		MinReconnectBackoff: 10 * time.Millisecond, MaxReconnectBackoff: 50 * time.Millisecond}
 	adds0 := r.mgr.n()
 	ctx, cancel := context.WithTimeout(context.Background(), settleBound)
-	ln, err := u.Listen(ctx, "cdr")
+	ln, err := u.Listen(ctx, ep)
 	cancel()
 	if err != nil {
 		return "fail listen"
@@ -1182,28 +1232,55 @@ func (e *nodeEngine) closeDuringReconnect(o *Out) string {
 	e.waitFor(5*time.Second, func() bool { return r.mgr.n() > adds0 })
 	res := make(chan error, 1)
 	go func() { _, err := ln.Accept(); res <- err }()
+	time.Sleep(20 * time.Millisecond)
+	adds1 := r.mgr.n()
 	upstream.VSessionShed(r.srv, 1<<20) // the server drops the connection
 	select {
 	case <-hl.reached:
 	case <-time.After(settleBound):
-		close(hl.release)
+		if when == "during" {
+			close(hl.release)
+		}
 		return "fail no-reconnect"
 	}
-	_ = ln.Close() // the application closes the listener now
-	close(hl.release)
+	if when == "after" {
+		// the reconnect completes: registered again and Accept blocks on the new session
+		e.waitFor(5*time.Second, func() bool { return r.mgr.n() > adds1 })
+		time.Sleep(50 * time.Millisecond)
+	}
+	if local == "close" {
+		_ = ln.Close()
+	} else {
+		_ = ln.Shutdown()
+	}
+	if when == "during" {
+		close(hl.release)
+	}
+	out := ""
 	select {
 	case err := <-res:
-		if errors.Is(err, client.ErrClosed) {
-			return "decide closed"
+		switch {
+		case errors.Is(err, client.ErrClosed):
+			out = "closed"
+		case err != nil && strings.HasPrefix(err.Error(), "connect:"):
+			out = "connect-err"
+		default:
+			out = "error"
 		}
-		if err != nil && strings.HasPrefix(err.Error(), "connect:") {
-			return "decide connect-err"
-		}
-		return "decide error"
-	case <-time.After(2 * time.Second):
-		o.Fail("C18", "close-lost-during-reconnect", fmt.Sprintf("Accept still blocked 2s after Listener.Close(); registered at the server: %s", ShowCounts(r.mgr.Endpoints())))
-		return "decide blocked"
+	case <-time.After(3 * time.Second):
+		out = "blocked"
 	}
+	if out != "closed" {
+		o.Fail("C18", "close-lost-during-reconnect", fmt.Sprintf("local %s %s the reconnect: Accept => %s, want closed; registered at the server: %s", local, when, out, ShowCounts(r.mgr.Endpoints())))
+	}
+	// server side: wait for the deregistration (if any)
+	e.waitFor(1500*time.Millisecond, func() bool { return r.mgr.Endpoints()[ep] == 0 })
+	reg := r.mgr.Endpoints()[ep]
+	if when == "during" && reg != 0 {
+		o.Fail("C18", "closed-listener-still-registered", fmt.Sprintf("local %s during the reconnect: the new session was not closed, the server still routes to the listener: %s", local, ShowCounts(r.mgr.Endpoints())))
+	}
+	o.Count("cdr:" + local + "-" + when + ":" + out)
+	return "decide " + out + " reg=" + strconv.Itoa(reg)
 }
 
 // ---------------------------------------------------------------- process tier
@@ -1372,6 +1449,10 @@ func (e *nodeEngine) Gen(r *rand.Rand, n int, tier string, w *bufio.Writer) {
 			}
 			// the D4 shape is always present
 			fmt.Fprintln(w, "decide 0 none remote-close")
+			// the F11 shape: a local Close/Shutdown racing the reconnect
+			for i := 0; i < 1+r.Intn(2); i++ {
+				fmt.Fprintf(w, "close-during-reconnect %s %s\n", Pick(r, []string{"close", "shutdown"}), Pick(r, []string{"during", "during", "after"}))
+			}
 			continue
 		}
 		if tier == "thorough" && ci%40 == 10 {
